@@ -69,6 +69,7 @@ class DH(Hooks):
                 return NotImplemented
             self.depth += 1
             ev.note_ret(f)
+            self.ctx.memo("inlined_fns", dict).setdefault("Decoder::%s" % m, set()).add(ev.what)
             try:
                 try:
                     return ev.block(f["body"], dict(zip(ps, args), self=self.selfv))
